@@ -168,6 +168,9 @@ def monitor(case, line):
     known = None
     last_chunk_id = -1
     in_try = None
+    in_cb = False
+    nested = set()
+    left_at_shut = []
 
     def outstanding_bytes():
         return sum(total[i] - acc[i] for i in total if ret.get(i) == 0 and i not in cbs and i not in is_try)
@@ -177,6 +180,8 @@ def monitor(case, line):
         if k == "w":
             i, t = a.split(","); i = int(i)
             total[i] = int(t); acc[i] = 0
+            if in_cb:
+                nested.add(i)
         elif k == "r":
             i, c = a.split(":"); i, c = int(i), int(c)
             ret[i] = c
@@ -225,28 +230,30 @@ def monitor(case, line):
             if stt == 0 and acc[i] != total[i]:
                 return (None, "request %d completed with status 0 but only %d of %d bytes were accepted" % (i, acc[i], total[i]))
             cbs[i] = stt; order.append(i)
-            # inside the callback the request itself no longer counts
-            exp = sum(total[j] - acc[j] for j in total if j not in is_try and j not in cbs and (ret.get(j) == 0 or j not in ret))
-            # requests being submitted right now (w seen, r not yet) only count once queued; skip the check then
-            if all(j in ret or j in is_try for j in total) and q != exp:
+            in_cb = True
+            exp = outstanding_bytes()     # inside the callback the request itself no longer counts
+            if q != exp:
                 return (None, "write_queue_size is %d inside the callback of %d, unsent bytes of pending requests: %d" % (q, i, exp))
         elif k == "q":
+            in_cb = False
             exp = outstanding_bytes()
             if int(a) != exp:
                 return (None, "write_queue_size is %d, unsent bytes of pending requests: %d" % (int(a), exp))
         elif k == "s":
-            if int(a) == 0:
+            if int(a[1:]) == 0:
                 shut_ok_at = pos
         elif k == "Y":
-            sys_shut = int(a)
-            left = [i for i in total if ret.get(i) == 0 and i not in cbs and acc[i] != total[i] and i not in is_try]
-            # requests with bytes left must be failed ones waiting for their callback; checked when it comes
-            for i in left:
-                cbs.setdefault(("pending", i), None)
+            sys_shut = int(a[1:])
+            left_at_shut = [i for i in total if ret.get(i) == 0 and i not in cbs and acc[i] != total[i]
+                            and i not in is_try]
         elif k == "B":
             early = [i for i in total if ret.get(i) == 0 and i not in cbs and i not in is_try]
-            if early:
-                known = (KNOWN_SHUT, "shutdown callback ran before the callback of earlier write(s) %s" % early)
+            in_cb = True
+            if early and all(i in nested for i in early):
+                known = (KNOWN_SHUT, "shutdown callback ran before the callback of earlier write(s) %s "
+                                     "submitted from inside a write callback" % early)
+            elif early:
+                return (None, "shutdown callback ran before the callback of earlier write(s) %s" % early)
         elif k == "e":
             nbytes, eof, ok = [int(x) for x in a.split(",")]
             if ok != 1:
@@ -256,11 +263,9 @@ def monitor(case, line):
             if sys_shut == 0 and eof != 1:
                 return (None, "no end-of-stream at the peer after shutdown(2)")
     # requests that had bytes left at shutdown(2) must have been reported as failed
-    for key in list(cbs):
-        if isinstance(key, tuple):
-            i = key[1]
-            if cbs.get(i) == 0:
-                return (None, "request %d had unsent bytes at shutdown(2) but completed with status 0" % i)
+    for i in left_at_shut:
+        if cbs.get(i) == 0:
+            return (None, "request %d had unsent bytes at shutdown(2) but completed with status 0" % i)
     settle = "settle" in case.split(";")[-1]
     if settle:
         stuck = [i for i in total if ret.get(i) == 0 and i not in cbs and i not in is_try]
